@@ -161,13 +161,13 @@ theorem goValue_CHAR (bs : Bytes) : goValue Types.CHAR bs = if bs.length = 0 the
 theorem goValue_VARCHAR (bs : Bytes) : goValue Types.VARCHAR bs = if bs.length = 0 then .ok .null else .ok (.str bs) := id rfl
 theorem goValue_TEXT (bs : Bytes) : goValue Types.TEXT bs = if bs.length = 0 then .ok .null else .ok (.str bs) := id rfl
 theorem goValue_LONGCHAR (bs : Bytes) : goValue Types.LONGCHAR bs = if bs.length = 0 then .ok .null else .ok (.str bs) := id rfl
-theorem goValue_XML (bs : Bytes) : goValue Types.XML bs = .err := id rfl
+theorem goValue_XML (bs : Bytes) : goValue Types.XML bs = if bs.length = 0 then .ok .null else .ok (.bytes bs) := id rfl
 theorem goValue_BLOB (bs : Bytes) : goValue Types.BLOB bs = .err := id rfl
 
 theorem goValue_UNITEXT (bs : Bytes) : goValue Types.UNITEXT bs =
-    match unitextRunes bs with
-    | none => .panic
-    | some runes => .ok (.str (trimRightNul (utf8EncAll runes))) := id rfl
+    if bs.length = 0 then .ok .null
+    else if bs.length % 2 ≠ 0 then .err
+    else .ok (.str (trimRightNul (utf8EncAll (utf16Dec (unitsOfLE bs))))) := id rfl
 
 /-- the money arm -/
 def moneyArm (bs : Bytes) : VOut :=
@@ -223,6 +223,7 @@ theorem bytes_NUMN (i : Int) (p s : Nat) (l : Int) :
 /-- the DATE / DATEN arm of `goValue` -/
 def dateArm (bs : Bytes) : VOut :=
   if bs.length = 0 then .ok .null
+  else if bs.length ≠ 4 then .err
   else match getLE 4 bs with
     | none => .panic
     | some u => .ok (.time (epoch1900.addDays (AseTime.days (wrap64 (toI32 u * Types.day)))))
@@ -261,6 +262,7 @@ theorem goValue_DATETIMEN (bs : Bytes) : goValue Types.DATETIMEN bs = dateTimeAr
 
 theorem goValue_BIGDATETIMEN (bs : Bytes) : goValue Types.BIGDATETIMEN bs =
     if bs.length = 0 then .ok .null
+    else if bs.length ≠ 8 then .err
     else match getLE 8 bs with
       | none => .panic
       | some u =>
@@ -271,7 +273,7 @@ theorem goValue_BIGDATETIMEN (bs : Bytes) : goValue Types.BIGDATETIMEN bs =
 def dateBytes (tm : Time) (l : Int) : BOut :=
   match mkBytes l with
   | none => .panic
-  | some bs => ofOpt (putLE 4 bs (toU 32 (AseTime.days (durationFromDateTime tm - durationFromDateTime epoch1900))))
+  | some bs => ofOpt (putLE 4 bs (toU 32 (floorDays (durationFromDateTime tm - durationFromDateTime epoch1900))))
 
 theorem bytes_DATE (tm : Time) (l : Int) : bytes Types.DATE (.time tm) l = dateBytes tm l := id rfl
 theorem bytes_DATEN (tm : Time) (l : Int) : bytes Types.DATEN (.time tm) l = dateBytes tm l := id rfl
